@@ -58,6 +58,13 @@ def check(run):
                     cid3 = cid + "/pk"
                     lines.append((cid3, "pkselect %s i%d %s" % (name, k, colnames)))
                     expect[cid3] = hrow + ["end ok", "locks lock,unlock locked=false"]
+            # every probe once more in DESCENDING order (absent rowids in the gaps that deletions left behind included): what a
+            # lookup returns does not depend on where the previous lookup ended
+            for k in sorted(probes, reverse=True):
+                cid = "%d/%s/%d/down" % (i, name, k)
+                lines.append((cid, "rowid %d %d" % (t["root"], k)))
+                expect[cid] = ["found " + rows[k]] if k in pset else ["notfound"]
+                meta[cid] = "descending"
             # the same handle, the other way round, and once more: a lookup must not depend on what was read before it
             # (small tables only; on the `alias` leaves the spilled row is read before the row stored behind it)
             if len(present) <= 64:
